@@ -206,8 +206,52 @@ class World:
 
 
 class Blob(Ext):
+    """the data column of a cache row; what it starts with is not known (any byte, for a valid and for a damaged entry alike)"""
+    type_names = ("bytes",)
+
     def __init__(self, kind):
         self.kind = kind
+
+    def sym_getitem(self, eng, key):
+        return BlobPart(self)
+
+    def sym_len(self, eng):
+        n = eng.fresh_int("blob_len")
+        eng.assume(n >= 0)
+        return n
+
+
+class BlobPart(Ext):
+    """a slice / byte of a stored blob: comparing it with a constant can go either way"""
+    type_names = ("bytes",)
+
+    def __init__(self, blob):
+        self.blob = blob
+
+    def sym_eq(self, eng, other):
+        return eng.fresh_bool("blob_part_equals_constant")
+
+    def sym_getattr(self, eng, name):
+        if name in ("startswith", "endswith"):
+            return stub(lambda eng, *a: eng.fresh_bool("blob_part_" + name))
+        raise Unsupported("bytes.%s on part of a stored blob" % name)
+
+
+def codec_module(name):
+    """zlib / gzip / bz2 / lzma as transparent codecs: decompress(compress(x)) is x (so an entry the code wrote itself decodes to what
+    it encoded -- the encoded form is not distinguished from the plain one), and decompress of a DAMAGED entry raises the module's
+    error (zlib.error; OSError / EOFError for gzip, OSError for bz2, LZMAError for lzma)"""
+    err = {"zlib": VClass("error", [EXC["Exception"]]), "gzip": EXC["OSError"], "bz2": EXC["OSError"], "lzma": VClass("LZMAError", [EXC["Exception"]])}[name]
+
+    def compress(eng, data, *a, **k):
+        return data
+
+    def decompress(eng, data, *a, **k):
+        if isinstance(data, Blob) and data.kind.startswith("damaged"):
+            raise PyRaise(VObj(err, {"args": ("invalid compressed data",)}))
+        return data
+    return ModuleStub(name, {"compress": stub(compress), "decompress": stub(decompress), "error": err, "LZMAError": err, "BadGzipFile": err,
+                             "Z_BEST_SPEED": 1, "Z_BEST_COMPRESSION": 9, "Z_DEFAULT_COMPRESSION": -1})
 
 
 class Cursor(Ext):
@@ -344,6 +388,8 @@ def install(eng, w, version):
     for m in ("hashlib", "platform", "time", "antlr4", "antlr4.Parser", "pathlib", "datetime"):
         eng.ext_modules[m] = ModuleStub(m, {"timedelta": stub(lambda eng, **k: ("timedelta", k)), "Path": NoOp(), "Parser": NoOp()})
     eng.ext_modules["sqlite3"] = w.sqlite
+    for codec in ("zlib", "gzip", "bz2", "lzma"):
+        eng.ext_modules[codec] = codec_module(codec)
     eng.ext_modules["pickle"] = pk
     eng.ext_modules["os"] = osmod
     eng.ext_modules["pymoca"] = ModuleStub("pymoca", {"__version__": version})
